@@ -71,3 +71,10 @@ Theorem C02_resolved_nodes :
                            subs_get (s_subs s) p = None /\ (exists a b l, p = a :: b :: l).
 Proof. exact resolve_rec_nodes. Qed.
 Print Assumptions C02_resolved_nodes.
+
+(** the child modules emitted for one module are keyed by strictly increasing idents *)
+Theorem C02_unique_modules :
+  forall es : list entry,
+  StronglySorted (fun a b => String.compare a b = Lt) (child_names es) /\ NoDup (child_names es).
+Proof. exact child_names_unique. Qed.
+Print Assumptions C02_unique_modules.
